@@ -456,6 +456,16 @@ def judge_B(rd):
     return bad
 
 
+def raise_kind(mol, e):
+    """class of a raising conversion: the recorded one (order-8 bond between two non-metals becomes DATIVE, which RDKit counts in
+    the acceptor's valence) or a plain `raises`."""
+    if type(e).__name__ == 'AtomValenceException' and any(
+            int(b) == 8 and mol._atoms[n].is_forming_single_bonds and mol._atoms[m].is_forming_single_bonds
+            for n, m, b in mol.bonds()):
+        return 'raises/special-bond-between-non-metals'
+    return 'raises'
+
+
 def rdkit_accepts(mol):
     """does RDKit itself accept this molecule (judged on chython's own SMILES of it; order-8 bonds written as dative)?"""
     from rdkit import Chem
@@ -588,6 +598,8 @@ OTHER = [
     'C[S+](C)C', '[O-]S(=O)(=O)[O-].[Mg+2]', 'F[B-](F)(F)F', 'C[Al](C)C', 'c1ccccc1~[Cr]', 'CO~[Ti](~OC)(Cl)Cl',
     # lone neutral atoms: chython reads them as non-radical atoms without hydrogens
     '[Zn]', '[Pd]', '[Fe]', '[Na]', '[Mg]', '[Al]', '[S]', '[Si]', '[H]', 'Cl[Sn]Cl', 'CC(=O)O[Na]', '[LiH]', '[AlH3]',
+    # order-8 bonds with every kind of partner (metal acceptor, two metals, two non-metals)
+    'CN(C)(C)~O', 'O~N(C)(C)C', 'N~B', 'C~[Fe]~C', '[Fe]~[Fe]', 'CP(C)(C)~[Pd]~P(C)(C)C', 'CCO~[Li]', '[Li]~OCC', 'C[O-]~[Na+]',
 ]
 
 
@@ -792,7 +804,7 @@ def correspond(ctx):
                 s_to.add(line('to', int(keep), cmol_ints(m)), 'err ' + type(e).__name__ if pre is None else
                          'ok ' + ' '.join(map(str, pre)), vtag, nt)
                 if rdkit_accepts(m):
-                    report(ctx, 'A', vtag, smi, [('raises', f'to_rdkit_molecule raised {type(e).__name__}: {str(e)[:120]}')],
+                    report(ctx, 'A', vtag, smi, [(raise_kind(m, e), f'to_rdkit_molecule raised {type(e).__name__}: {str(e)[:120]}')],
                            {'variant': vtag.split(':', 1)[1] if ':' in vtag else '', 'seed': ctx.seed})
                 continue
             s_to.add(line('to', int(keep), cmol_ints(m)), 'ok ' + ' '.join(map(str, pre)), vtag, nt)
@@ -1176,8 +1188,8 @@ def search(ctx):
             for keep in (True, False):
                 try:
                     bad = judge_A(m, keep)
-                except Exception:
-                    continue
+                except Exception as e:
+                    bad = [(raise_kind(m, e), f'raised {type(e).__name__}')] if rdkit_accepts(m) else []
                 report(ctx, 'A', vtag, smi, bad, {'seed': ctx.seed})
         if '|' in smi:
             continue
@@ -1223,7 +1235,7 @@ def probe(inp):
                 try:
                     found += [(vtag, w, d) for w, d in judge_A(m, keep)]
                 except Exception as e:
-                    found.append((vtag, 'raises', type(e).__name__))
+                    found.append((vtag, raise_kind(m, e), type(e).__name__))
     if inp.get('judge', 'B') in ('B', 'any') and '|' not in smi:
         p = Chem.SmilesParserParams()
         p.removeHs = False
